@@ -1004,11 +1004,9 @@ class Dilator:
             self._manager = m
             if self._pending_dilation_key is not None:
                 m.got_dilation_key(self._pending_dilation_key)
-            if self._pending_wormhole_versions:
+            if self._pending_wormhole_versions is not None:
                 m.got_wormhole_versions(self._pending_wormhole_versions)
-            while self._pending_inbound_dilate_messages:
-                plaintext = self._pending_inbound_dilate_messages.popleft()
-                m.received_dilation_message(plaintext)
+                self._deliver_pending_dilate_messages()
 
         return self._manager._api
 
@@ -1039,13 +1037,24 @@ class Dilator:
             self._pending_dilation_key = dilation_key
 
     def got_wormhole_versions(self, their_wormhole_versions):
+        # remembered even when we have a manager: it tells received_dilate()
+        # that the manager has been started
+        self._pending_wormhole_versions = their_wormhole_versions
         if self._manager:
             self._manager.got_wormhole_versions(their_wormhole_versions)
-        else:
-            self._pending_wormhole_versions = their_wormhole_versions
+            self._deliver_pending_dilate_messages()
 
     def received_dilate(self, plaintext):
-        if not self._manager:
+        # The Manager only understands dilation messages once it has seen
+        # the peer's versions, and the mailbox server does not promise to
+        # deliver the peer's "version" before its "dilate-0": hold early
+        # ones back.
+        if not self._manager or self._pending_wormhole_versions is None:
             self._pending_inbound_dilate_messages.append(plaintext)
         else:
+            self._manager.received_dilation_message(plaintext)
+
+    def _deliver_pending_dilate_messages(self):
+        while self._pending_inbound_dilate_messages:
+            plaintext = self._pending_inbound_dilate_messages.popleft()
             self._manager.received_dilation_message(plaintext)
